@@ -75,3 +75,36 @@ def run_case(c):
         r["first"] = k == 0
         R.append(r)
     return R
+
+
+# ---- file level: a MidiFile over two tracks -------------------------------------------------
+def run_file_case(c):
+    from mingus.midi.midi_file_out import MidiFile
+    R = []
+    a, b = MidiTrack(120), MidiTrack(90)
+    m = MidiFile([a, b])
+    ts = [a, b]
+    c4 = {"n": ["C"], "o": 4, "ch": 0, "vel": 100}
+    for k, act in enumerate(c["acts"]):
+        def f():
+            if act["op"] == "note":
+                t = ts[act["i"] - 1]
+                t.set_deltatime(0); t.play_Note(mk_note(c4)); t.set_deltatime(72); t.stop_Note(mk_note(c4))
+            elif act["op"] == "reset":
+                ts[act["i"] - 1].reset()
+            else:
+                m.reset()
+            return list(m.get_midi_data())
+        r = call("file_" + act["op"], act, f)
+        if not r["ok"]:
+            r["out"] = []
+        r["first"] = k == 0
+        R.append(r)
+    return R
+
+
+_run_track_case = run_case
+
+
+def run_case(c):
+    return run_file_case(c) if c.get("kind") == "file" else _run_track_case(c)
